@@ -10,7 +10,12 @@ RULE = ('1..4 probes with independent spike counts, id ranges with gaps and cura
         'on a grid of 6 instants so that ties inside and across probes are the norm, time dtypes '
         'uint64/int64/int32/uint32, id dtypes uint32/int32/int64, per-cluster TSVs in all / some / none of '
         'the probes; every spike carries a unique amplitude token so that its identity is observable '
-        'after the merge. One case = one real Merger.merge(). non-trivial = >= 2 probes')
+        'after the merge. One case = one real Merger.merge(), also run through the Lean file-system model of the '
+        'whole merge (which files appear in the output directory, their contents, nothing else touched); every '
+        'fourth case uses a Merger / process that has merged before (same object twice, write_spike_clusters twice, '
+        'another recording first). Advisory stream (never a verdict, agreement recorded under advisory:*): probes '
+        'without spikes / with one spike / without a required file, output directory = a probe directory. '
+        'non-trivial = >= 2 probes')
 ASSUMPTIONS = ['np.save/np.load, csv are transport', 'same dtype across probes (dtype mixing is outside the domain)']
 
 
@@ -396,6 +401,11 @@ def judge(case, impl_res, ans):
     if mm['spike_samples'] != exp['times'] or mm['spike_clusters'] != exp['clusters'] or \
             mm['spike_templates'] != exp['templates'] or mm['amplitudes'] != exp['amps']:
         return 'SPEC: the TemplateModel returned by merge() differs from the merged files'
+    for fn in M.TSVS:
+        # the renumbered per-cluster metadata as the returned model shows it
+        if {k: v for k, v in mm['metadata'].get(fn[len('cluster_'):-4], {}).items()} != exp['tsv'].get(fn, {}):
+            return 'SPEC: metadata of the TemplateModel returned by merge() differs from the renumbered %s: %s vs %s' % (
+                fn, mm['metadata'].get(fn[len('cluster_'):-4]), exp['tsv'].get(fn))
     if len(ok['cluster_probes']['vals']) != max(ok['spike_clusters']['vals']) + 1:
         return 'SPEC: cluster_probes does not have one row per merged cluster id (theorem clusterProbes_length)'
     # the merge as a function on directories (Lean C11.merge): files created, their contents, frame
